@@ -111,7 +111,7 @@ def lip_mode(rng, P, prob):
         if rng.random() < 0.1: P["L_min"] = rng.choice([1.0, 1e-2])
         return "L0"
     if rng.random() < 0.3: P["L_max"] = rng.choice([4.0, 64.0, 1e3])
-    if rng.random() < 0.15: P["L_min"] = rng.choice([1.0, 1e-2, 8.0])
+    if rng.random() < 0.15: P["L_min"] = rng.choice([t for t in (1.0, 1e-2, 8.0) if t < P.get("L_max", 1e20)])   # L_min > L_max: std::clamp is undefined
     if rng.random() < 0.2: P["lip_eps"] = rng.choice([1e-3, 1e-9]); P["lip_delta"] = rng.choice([1e-6, 1e-12])
     return "fd"
 
@@ -124,6 +124,8 @@ def gen_random(ctx, N):
         r = rng.random()
         if r < 0.12: prob.l1 = [rng.choice([0.0, 0.25, 1.0])]
         elif r < 0.2: prob.l1 = [rng.choice([0.0, 0.5, 2.0]) for _ in range(n)]
+        # the problem supplies some optional combined members itself (same values, work buffers left NaN): FISTA must not read work_n / work_m
+        if rng.random() < 0.25: prob.prov = rng.choice([0x80, 0x20, 0x40, 0x10, 0xfe, 0xe0, 0x0e])
         P = {"max_iter": rng.choice([0, 1, 2, 2, 3, 5, 8, 15, 25, 40]), "crit": rng.choice(sl.CRITS)}
         lip_mode(rng, P, prob)
         if rng.random() < 0.2: P["Lgamma"] = rng.choice([0.5, 0.99, 0.25, 1.0])
@@ -154,6 +156,7 @@ def gen_constrained_fixed(ctx, N):
             if r < 0.3: prob.Dub[j] = prob.Dlb[j] if math.isfinite(prob.Dlb[j]) else (prob.Dub[j] if math.isfinite(prob.Dub[j]) else 0.0); prob.Dlb[j] = prob.Dub[j]
             elif r < 0.55: prob.Dlb[j] = -INF; prob.Dub[j] = rng.dyadic(-2, 2, 2)
             elif r < 0.8: prob.Dub[j] = INF; prob.Dlb[j] = rng.dyadic(-2, 2, 2)
+        if rng.random() < 0.25: prob.prov = rng.choice([0x80, 0x20, 0x40, 0x10, 0xfe, 0xe0, 0x0e])
         L = rng.choice([8.0, 32.0, 128.0, 512.0])
         P = {"max_iter": rng.choice([0, 1, 2, 4, 9, 20, 60]), "crit": sl.CRITS[i % len(sl.CRITS)], "L_min": L, "L_max": L}
         if rng.random() < 0.25: P["noaccel"] = True
@@ -314,13 +317,14 @@ def is_dyadic(cs):
 
 # ------------------------------------------------------------------ run
 def run(ctx):
-    ctx.coverage["rule"] = ("whole runs of FISTASolver on the drv_solve problem family (n<=4, m<=3, boxes C and D incl. one-sided / equality rows, optional l1), "
+    ctx.coverage["rule"] = ("whole runs of FISTASolver on the drv_solve problem family (n<=4, m<=3, boxes C and D incl. one-sided / equality rows, optional l1, optional combined members supplied by the problem with poisoned work buffers), "
                             "max_iter<=60, all 10 stopping criteria, fixed-step (L_min == L_max) / user L_0 with backtracking / finite-difference estimate, L_max caps, "
                             "disable_acceleration, max_no_progress 0/1/2/3, stop() injected at evaluation / callback indices, NaN from evaluation #E on, max_time=0, "
                             "budgets 0/1/2, no-progress plateaus, exact dyadic ties; one evaluation = one whole run compared record by record with FistaLoop.fista at binary64; "
                             "distinct = (status, #records, Lipschitz mode, branch classes of the run, injection kind, criterion)")
     ctx.assumptions += ["theorems over ideal reals (binary64 rounding is covered by the whole-run correspondence only)",
                         "problem functions (possibly stateful: they see the event counters), stop flag and clock are arbitrary oracles in the theorems",
+                        "L_min <= L_max (std::clamp(L, L_min, L_max) in the initial Lipschitz estimate is undefined otherwise)",
                         "time_elapsed > max_time is modelled as an input flag; exceptions thrown by user functions are not modelled; print_interval output ignored"]
     run_translators(ctx)
     check_properties(ctx, "FISTA")
@@ -362,7 +366,7 @@ def run_corr(ctx, prefix, scale, extra_oracle=None):
             if sl.D(r, "L") >= cs.P_("L_max"): cls.add("M")
         if o["stepsize_backtracks"]: cls.add("b")
         mode = "fixed" if cs.fixed() else "L0" if cs.P_("L_0") > 0 else "fd"
-        flags = ("a" if cs.P_("noaccel") else "") + ("m" if cs.prob.m else "") + ("l" if cs.prob.l1 else "") + ("w" if cs.always else "")
+        flags = ("a" if cs.P_("noaccel") else "") + ("p" if getattr(cs.prob, "prov", 0) else "") + ("m" if cs.prob.m else "") + ("l" if cs.prob.l1 else "") + ("w" if cs.always else "")
         stopk = "E" if cs.stop_eval >= 0 else "C" if cs.stop_cb >= 0 else "N" if cs.nan_from >= 0 else "T" if cs.time0 else "-"
         ctx.case("%s/%d/%s/%s/%s/%s/%s" % (o["status"], min(len(recs), 6), mode, "".join(sorted(cls)), flags, stopk, cs.P_("crit")),
                  sample=({"request": cs.rq.describe(), "status": o["status"], "iterations": o["iterations"], "records": len(recs)} if len(recs) > 3 else None))
